@@ -102,9 +102,10 @@ class World:
         self.kind = {}         # name -> 'container' | 'plate'
         self.fps = {}          # (name, version) -> fingerprint at creation
         self.extra_live = []   # (label, object, fingerprint): slices etc. handed out and kept
+        self.fresh = set()     # (name, version) whose stored amounts are determined by user decimal strings alone
 
     # ---- registry
-    def add(self, name, obj):
+    def add(self, name, obj, fresh=False):
         rep = self.rep
         kind = 'plate' if isinstance(obj, rep.Plate) else 'container'
         if name in self.kind and self.kind[name] != kind:
@@ -113,6 +114,8 @@ class World:
         self.reg.setdefault(name, []).append(obj)
         v = len(self.reg[name]) - 1
         self.fps[(name, v)] = fingerprint(rep, obj)
+        if fresh:
+            self.fresh.add((name, v))
         return v
 
     def names(self, kind=None):
